@@ -1,5 +1,6 @@
 pub mod emu;
 pub mod program;
+pub mod realbin;
 pub mod run;
 pub mod stats;
 pub mod stdio;
